@@ -362,6 +362,9 @@ def fam_exhaustive(tier, tag, variants=("plain", "backing", "special", "backing_
     if depth not in _EXH:
         _EXH[depth] = Q.tlc_enumerate("GenOps.tla", env={"DEPTH": str(depth)}, timeout=1800)[0]
     hist = _EXH[depth]
+    if depth >= 4 and not sample:
+        # 41 371 histories of up to four operations: a seeded third of them per image variant
+        sample = 14000
     geo = dict(cb=10, ro=4, bsb=9, vclusters=4, params={"l2": [9, 1024], "rb": [9, 1024]})
     imgs = _exh_images()
     rng = random.Random(seed * 1237 + depth)
